@@ -35,7 +35,7 @@ CHECKS = {
     'C04': dict(
         text="Decides the error clauses of the property for UTMUPS: a failing call leaves its output arguments "
              "unchanged (X3 commit-last typestate over Forward/Reverse/Transfer/DecodeZone/DecodeEPSG...), only "
-             "GeographicErr is thrown (X1), and no guard throws because an argument is NaN (X4). Also (W1) every output argument written on some returning path is written on every returning path (DecodeEPSG, DecodeZone, Forward, Reverse, Transfer), (T4) the range and false-origin tables agree with the MGRS constants, and (X7c) no floating value that may be NaN or infinite is converted to an integer in StandardZone.",
+             "GeographicErr is thrown (X1), and no guard throws because an argument is NaN (X4). Also (W1) every output argument written on some returning path is written on every returning path (DecodeEPSG, DecodeZone, Forward, Reverse, Transfer), (T4) the range and false-origin tables agree with the MGRS constants, and (X7c) no floating value that may be NaN or infinite is converted to an integer in StandardZone. Also (S2) the hemisphere-sign parity of the UPS projection and (SW1) boolean flags passed in parameter order.",
         note="Zone selection, false origins, ranges and the round trip are numerical/combinatorial and NOT decided "
              "by this check; it decides the 'fails cleanly / NaN does not throw' clause only.",
         technique="CFG typestate (commit-last) + Kleene NaN evaluation of throw guards + must-write dataflow (output totality) + constant-relation table check",
@@ -44,7 +44,7 @@ CHECKS = {
         text="Decides the error clauses for MGRS: outputs committed last on every path of Forward/Reverse/Decode "
              "(X3), only GeographicErr (X1), NaN never raises (X4), the alphabet membership helper rejects "
              "NUL (X2b), the MGRS alphabets are injective and sized to their index ranges (T3), and an interval "
-             "analysis (X7) proves every write into the fixed buffer mgrs1 and every decided alphabet index in range. Also (W1) output totality and (X9) buffer fill completeness: for every precision and on every path each of the characters of mgrs1 handed over was stored to.",
+             "analysis (X7) proves every write into the fixed buffer mgrs1 and every decided alphabet index in range. Also (W1) output totality and (X9) buffer fill completeness: for every precision and on every path each of the characters of mgrs1 handed over was stored to. Also (T4) the range tables agree with the UTMUPS tables.",
         note="Digit truncation, band/row consistency and the accept/reject set of strings are NOT decided.",
         technique="CFG typestate (commit-last) + Kleene NaN evaluation + interval analysis of buffer/alphabet indexes + partial evaluation of buffer fills",
         ref="3.4, 4 (C05)"),
@@ -65,7 +65,7 @@ CHECKS = {
              "their consumers (T3), and (X7) an interval analysis over the encoders - ranges established by the throwing "
              "guards, clamps and the documented range of AngNormalize - proves every write into the fixed char buffers "
              "and every decided alphabet index inside its array; an index whose attained range leaves the alphabet is "
-             "a violation (this found Georef::Forward(lat, 180) emitting the terminating NUL). Added: (W1) output totality; (X9) buffer fill completeness of the four encoders for every precision and path; (X10) for every string length and accepting path of GARS/Georef/Geohash::Reverse the decoded position lies in -90 <= lat < 90, -180 <= lon < 180 (path-wise range interpretation, one full-range variable per looked-up character); (X7c) no possibly NaN/infinite value is converted to an integer (this found the crash for lon = +-inf).",
+             "a violation (this found Georef::Forward(lat, 180) emitting the terminating NUL). Added: (W1) output totality; (X9) buffer fill completeness of the four encoders for every precision and path; (X10) for every string length and accepting path of GARS/Georef/Geohash::Reverse the decoded position lies in -90 <= lat < 90, -180 <= lon < 180 (path-wise range interpretation, one full-range variable per looked-up character); (X7c) no possibly NaN/infinite value is converted to an integer (this found the crash for lon = +-inf). Also (X7r) the indexes that need a relation between two variables are proved by a linear-relational path analysis (29 sites of GARS/Georef/OSGB), and (X11) a numeric field the encoder emits digit by digit takes exactly the values the decoder accepts at those character positions.",
         note="Containing-cell arithmetic, prefix property and full consumption of the input are NOT decided. X7 leaves "
              "indexes that need relational reasoning undecided (listed in the evidence), never guessed.",
         technique="CFG typestate (commit-last) + Kleene NaN evaluation + interval analysis of buffer/alphabet indexes + partial evaluation of buffer fills + path-wise range interpretation of decoders (NaN/infinity tracked)",
@@ -81,7 +81,7 @@ CHECKS = {
              "does not establish it (this is what makes an unrequested / uncapable / uninitialised query return NaN "
              "or leave outputs untouched rather than a number); (M2c) conversely every requested output within the "
              "capabilities is written on every normally returning path; (M6) a member bound to a conditionally written "
-             "output position is given a fresh value first (no stale third point). (M7) a placeholder-initialised local computed only under mask bits never reaches an output, a return value or a branch on a path that does not establish those bits, globally by the licence dataflow and locally among the statements of one block (so the value returned for one quantity cannot depend on which others were requested); (M8) the line factories of the two solvers derive the same named capabilities for every request.",
+             "output position is given a fresh value first (no stale third point). (M7) a placeholder-initialised local computed only under mask bits never reaches an output, a return value or a branch on a path that does not establish those bits, globally by the licence dataflow and locally among the statements of one block (so the value returned for one quantity cannot depend on which others were requested); (M8) the line factories of the two solvers derive the same named capabilities for every request. (M9) a value selected by mask & LONG_UNROLL flows only into lon2.",
         note="NOT decided: numerical equality of the alternative evaluation paths a mask selects, arc/distance position "
              "coincidence, the stored third point. Assumes A-ENUM-UNION (masks are unions of enumerators), A-LOOP-FILL. "
              "Initialisation conditions of members are derived from the constructors/LineInit by the tool, not frozen.",
@@ -117,7 +117,7 @@ CHECKS = {
              "state from const methods is under !_threadsafe, and _threadsafe is set only after CacheAll()+close(); "
              "(K5) every stream use is inside a try converting to GeographicErr; (K6) the area cache is read "
              "big-endian; (T5) the three cubic least-squares tables are exact projectors on the 12-point stencil "
-             "(integer algebra on the extracted tables, stencil order and Horner form). (K7) raster bounds by a linear-relational path analysis: on every path of height (rawval inlined) and CacheArea, for all raster sizes the constructor accepts and all positions, every file position is inside the raster, every cache access inside the cache and every block read inside one raster row and one cache row.",
+             "(integer algebra on the extracted tables, stencil order and Horner form). (K7) raster bounds by a linear-relational path analysis: on every path of height (rawval inlined) and CacheArea, for all raster sizes the constructor accepts and all positions, every file position is inside the raster, every cache access inside the cache and every block read inside one raster row and one cache row. (OV1) no 32-bit product is widened to 64 bits only after the multiplication (file-length validation).",
         note="NOT decided: that the gathered pixels are the right ones (longitude wrap, pole reflection, area-cache "
              "geometry), continuity/linearity as numbers, ConvertHeight, header validation arithmetic. Assumes "
              "A-GEOID-FULLCACHE and A-RAWVAL-BIGENDIAN.",
@@ -186,7 +186,7 @@ CHECKS['C11'] = dict(
          "symmetry requires, i.e. each hemisphere-sign factor is applied exactly once (24 outputs); (D1) every setter that "
          "rewrites a member re-establishes each member the constructors derive from it (dependences read from Init); (X5) "
          "the constructors and SetScale reject every bad cell of a, f, k0, the standard latitudes (incl. aliases mod 360) "
-         "and sin/cos pairs; plus the error clauses X1/X3 for these classes.",
+         "and sin/cos pairs; plus the error clauses X1/X3 for these classes. Also (H1) a homogeneity-degree analysis: every scale-carrying member (degrees read from the constructors: _k0, _scale, _nrho0, _drhomax, _k2) has degree 0 in the old scale after SetScale.",
     note="NARROW: agreement with the textbook formulas, conformality/equal-area, the 10 nm round trips, the divided-difference "
          "accuracy and the value SetScale establishes are numerical and NOT decided. S2 and D1 each found a genuine defect "
          "(fixed: c2e6538, 98d65ff).",
@@ -199,7 +199,7 @@ CHECKS['C19'] = dict(
          "the caller's gradient outputs are bound (72 obligations over SphericalHarmonic, 1, 2); (I1) request-flag "
          "independence: inside `if (gradp)` / `if (diffp)` no value that was defined before and feeds a result returned for "
          "both settings is overwritten (so the potential is the same number with and without the gradient); and the error "
-         "clauses for the model readers (X1 throw type, X3 outputs committed last, X6 loops bounded).",
+         "clauses for the model readers (X1 throw type, X3 outputs committed last, X6 loops bounded). Also (CAP1) inside GravityCircle every evaluation of an engine member or NaN-guarded scalar is on paths that establish the capability bits under which GravityModel::Circle created it; (X2v) every vector size readcoeffs computes from an accepted header is non-negative; (SW1) no swapped arguments.",
     note="NARROW: the Clenshaw sums, time interpolation, rotation to ENU, normal-gravity constants and circle/direct "
          "agreement as numbers are NOT decided. I1 found a genuine defect (fixed: cd4324e).",
     technique="case-region / template-argument agreement over the AST + def-use check of flag-guarded regions + CFG typestate",
